@@ -61,8 +61,11 @@ class Peer:
         try:
             return bytes(fp._serialize_frame(op, p, fin))
         except AssertionError:
-            # wsproto's deflate compressor refuses to serialise a stray CONTINUATION frame: not expressible
-            raise Skip()
+            # the ONLY abstention of this check: the harness peer's own permessage-deflate compressor refuses to
+            # serialise a stray CONTINUATION frame (assert in wsproto/extensions.py). It happens before any
+            # mitmproxy code has seen a byte, so it cannot hide a violation; every other AssertionError surfaces.
+            if t == "c" and fp.extensions: raise Skip()
+            raise
 
     def decode(self, data):
         self.conn.receive_data(data)
@@ -378,15 +381,14 @@ def run_layer(case):
 
 # ---- specification-level replay of a script (what the peers sent), independent of the layer ------
 def spec_of(case):
-    """source messages / pings / first close per direction, in script order, up to the first close/eof"""
+    """what the peers sent, derived from the INPUT script only: source messages / pings in script order up to the first
+    close/eof (everything behind a close is legitimately ignored) or up to the first protocol violation by a peer
+    (`weird`: then only the items before it are expected — wsproto answers the violation with a local close)"""
     asm = {"c": None, "s": None}
     items = []          # ("msg", from, text, [frames], injected) | ("ping"/"pong", from, payload)
     close = None
-    weird = False       # malformed frame sequences: outside the oracle (wsproto answers with a protocol error)
     for op in virtual_script(case):
-        if close is not None:
-            weird = weird or op["op"] != "eof"
-            continue
+        if close is not None: break
         sd = op.get("from", "c")
         if op["op"] == "inject":
             items.append(("msg", sd, bool(op["text"]), [unhx(op["content_hex"])], True))
@@ -394,26 +396,30 @@ def spec_of(case):
             close = (sd, 1006, None, "eof")
         else:
             for f in op["frames"]:
-                if close is not None: weird = True; break
+                if close is not None: break
                 t = f["t"]; p = unhx(f.get("p_hex", "-"))
                 if t in ("t", "b"):
-                    if asm[sd] is not None: weird = True
+                    if asm[sd] is not None: return items, None, True          # data frame inside a fragmented message
                     asm[sd] = [t == "t", [p]]
                 elif t == "c":
-                    if asm[sd] is None: weird = True; continue
+                    if asm[sd] is None: return items, None, True              # continuation without a message
                     asm[sd][1].append(p)
                 elif t in ("pi", "po"):
                     items.append(("ping" if t == "pi" else "pong", sd, p)); continue
                 elif t == "cl":
-                    if f.get("code") is None and p: weird = True
+                    if f.get("code") is None and p: return items, None, True  # malformed close payload
                     if f.get("code") is None: close = (sd, 1005, "", "frame")
                     else: close = (sd, f["code"], unhx(f.get("reason_hex", "-")).decode("utf-8", "replace"), "frame")
                     continue
-                if asm[sd] is not None and f.get("fin", 1):
+                if asm[sd] is not None:
                     txt, frs = asm[sd]
-                    if txt and not valid_utf8(b"".join(frs)): weird = True
-                    items.append(("msg", sd, txt, frs, False)); asm[sd] = None
-    return items, close, weird
+                    if txt:
+                        try: codecs.getincrementaldecoder("utf-8")().decode(b"".join(frs), False)
+                        except UnicodeDecodeError: return items, None, True              # text that cannot become UTF-8
+                    if f.get("fin", 1):
+                        if txt and not valid_utf8(b"".join(frs)): return items, None, True   # text that is not UTF-8
+                        items.append(("msg", sd, txt, frs, False)); asm[sd] = None
+    return items, close, False
 
 
 def parse_tokens(steps):
@@ -486,28 +492,39 @@ def run_wire(case):
 class Check(PropertyCheck):
     prop = "C28"
     design_ref = "§5 C28"
-    level_text = ("Lean theorems for ALL event sequences, addon policies and payloads about the model of WebsocketLayer."
-                  "relay_messages + Fragmentizer (after two fix: commits): each_message_once_in_order (per direction, what the "
-                  "other peer reassembles = the recorded non-dropped messages, once each, in order, with type), "
-                  "each_burst_is_one_message, delivered_equals_recorded (exact recorded content when text contents are UTF-8), "
-                  "binary_exact, text_exact (text fragments concatenate to decode-replace(content) for EVERY byte string), "
-                  "text_exact_utf8 (= content for every concatenation of well-formed UTF-8 sequences), "
-                  "unmodified_keeps_boundaries + text_buffer_stays_valid, injected_recorded_once, pings_pongs_relayed, "
-                  "close_code_reason_recorded; model tied to the code (a) Fragmentizer and the UTF-8 replace automaton alone, "
-                  "(b) the whole layer between in-memory wsproto client/server peers with and without permessage-deflate under "
-                  "keep / same-length edit / length-changing edit / drop / inject.")
-    level_note = ("trusted: wsproto (frame codec, permessage-deflate, incremental UTF-8 decoding of received text, its connection "
-                  "state machine) is a parameter of the model: the model consumes the events a shadow wsproto connection yields "
-                  "for the same bytes and its outputs are compared with the events the layer hands to wsproto.send (frame "
-                  "boundaries) while the property oracle works on what the in-memory peers decode from SendData. Frame boundaries "
-                  "of text are compared at wsproto-event level (a received frame that ends inside a character hands that character "
-                  "over with the next frame); under permessage-deflate the boundaries of the uncompressed data are only "
-                  "observable at the send-event level. unmodified_keeps_boundaries and pings_pongs_relayed are per-event "
-                  "statements (with the invariant lemma text_buffer_stays_valid), the other theorems are over whole runs. "
-                  "The model's `crash` branch (send on a non-open wsproto connection) is not reachable through wsproto 1.3, "
-                  "which yields nothing behind a close frame; run-level theorems assume it did not happen. A text message whose "
-                  "content an addon set to non-UTF-8 bytes is delivered as its decode-replace image (stated by text_exact).")
-    technique = "Lean 4 proof (induction over event sequences and byte strings) + differential model-vs-code correspondence (Fragmentizer and full layer)"
+    level_text = ("Lean theorems (19) for ALL inputs about the model of WebsocketLayer.relay_messages + Fragmentizer AND the "
+                  "transcribed wsproto wire format: each_message_once_in_order (whole interleaved histories of both directions, "
+                  "every addon policy: what a peer reassembles = the recorded non-dropped messages of the other direction, once, in "
+                  "order, with type), each_burst_is_one_message, delivered_equals_recorded, binary_exact, text_exact (every byte "
+                  "string), text_exact_utf8 (every well-formed UTF-8 string), unmodified_keeps_boundaries / "
+                  "unmodified_message_keeps_frames (+ text_buffer_stays_valid), injected_recorded_once, "
+                  "partial_frame_events_insensitive (TCP segmentation inside a frame), frame_roundtrip / stream_roundtrip "
+                  "(FIN/RSV/opcode, 7/16/64-bit lengths, masking), message_wire_roundtrip (any fragmentation of a message is "
+                  "decoded to its fragment events and reassembled to one message), wire_message_end_to_end (peer bytes -> proxy "
+                  "decoder -> relay with addon edit -> proxy serialiser -> peer decoder+reassembly = exactly one message of the "
+                  "same type with the recorded content), controls_relayed_in_order and close_recorded_in_history (pings/pongs and "
+                  "the first close over whole histories), pings_pongs_relayed, close_code_reason_recorded. Ties: (a) san + "
+                  "Fragmentizer alone, (b) the whole layer between in-memory wsproto peers (+-deflate, keep/same-length/"
+                  "length-changing edit/drop/inject), (c) end to end through the real HttpLayer upgrade with frames sharing the "
+                  "segment of the 101 response / upgrade request, (d) the frame codec transcription against wsproto's FrameDecoder, "
+                  "serialiser and event mapping on valid, malformed, mutated and truncated streams.")
+    level_note = ("still parameters (assumed, exercised by the in-memory peers, not proved): permessage-deflate (the wire model "
+                  "takes frames with the payload the extension hands over; `rsvOk` = which RSV bits the extensions accept) and "
+                  "UTF-8 validation / incremental decoding of received text (text frames are taken to end on character "
+                  "boundaries in the wire theorems; the layer tie runs real wsproto incl. frames cut inside characters). The "
+                  "wire model decodes whole frames; wsproto's delivery of a frame in pieces is covered at event level by "
+                  "partial_frame_events_insensitive, and its early detection of sequencing errors on incomplete frames is "
+                  "outside the model (truncated streams: complete frames compared only). In the layer tie the model consumes "
+                  "the events a shadow wsproto connection yields for the same bytes (e2e: the bytes the layer's connections "
+                  "received) and its outputs are compared with the events handed to wsproto.send; the property oracle works on "
+                  "what the peers decode from SendData and derives every expected value from the input script. Under deflate, "
+                  "frame boundaries of uncompressed data are observable only at the send-event level. Run-level message theorems "
+                  "assume the model's `crash` branch (send on a non-open wsproto connection) did not happen; wsproto 1.3 yields "
+                  "nothing behind a close frame (transcribed: streamEvents stops), so the branch is unreachable through it. "
+                  "Oracle abstentions: after a protocol violation BY A PEER only the items sent before it are owed (prefix "
+                  "check, nothing is skipped); the single Skip is a stray CONTINUATION frame the harness peer's own deflate "
+                  "compressor refuses to serialise. No findings; three defects repaired in /repo (two by this check).")
+    technique = "Lean 4 proof (induction over event sequences, byte strings and frame streams) + differential model-vs-code correspondence (Fragmentizer, full layer, HTTP upgrade end to end, wsproto frame codec)"
     rule = ("san: byte soups over UTF-8 lead/continuation boundary values; frag: (is_text, original fragment lengths, new content) "
             "with 1-4 byte characters straddling multiples of FRAGMENT_SIZE and original fragment boundaries, sizes 0..3*FS+3, "
             "same-length and length-changing contents, invalid UTF-8; layer: scripts of raw frames both ways (fragmented, cut "
@@ -515,7 +532,9 @@ class Check(PropertyCheck):
             "addon policy per message keep/same-length edit/length-changing edit/drop; e2e: the same through the real HttpLayer "
             "(transparent mode) upgrade, with WebSocket frames sharing the TCP segment of the 101 response / the upgrade "
             "request, payloads and segments ending in CR, LF, CRLF, 0x00, 0xff, ..., every cut of these short streams "
-            "(model fed with what the layer's wsproto connections received, oracle judges against what the peers sent). distinct = distinct case; non-trivial = "
+            "(model fed with what the layer's wsproto connections received, oracle judges against what the peers sent); wire: "
+            "frame streams (masked/unmasked, 7/16/64-bit lengths, control frames, close codes) incl. bad RSV/opcode/mask/"
+            "length form/sequencing, a mutated header byte, truncation. distinct = distinct case; non-trivial = "
             "at least one frame/fragment.")
     budget = {"quick": 5200, "thorough": 120000}
     time_budget = {"quick": 15, "thorough": 420}
@@ -534,6 +553,7 @@ class Check(PropertyCheck):
     def setup(self, tier):
         # quick tier: the fork pool costs more (pickling multi-kB payloads) than it saves
         self.parallel = tier == "thorough"
+        self.known_selftest()
         self._bigp = 0.05   # share of multi-kB payloads (x3)
 
     # ---- T: constant regenerated from the live class -------------------------------------------
@@ -700,10 +720,11 @@ class Check(PropertyCheck):
             if closed:
                 if rng.chance(0.3): script.append({"op": "frames", "from": rng.pick(["c", "s"]), "frames": [{"t": "b", "p_hex": "00"}], "seg": []})
                 break
-        if rng.chance(0.04):   # protocol violations (wsproto answers with a locally generated close)
+        deflate = int(rng.chance(0.4))
+        if rng.chance(0.04) and not deflate:   # protocol violations (wsproto answers with a locally generated close)
             script.insert(rng.randint(0, len(script)), {"op": "frames", "from": rng.pick(["c", "s"]),
                           "frames": [rng.pick([{"t": "c", "p_hex": "00"}, {"t": "t", "p_hex": "ff"}, {"t": "cl", "p_hex": "00"}])], "seg": []})
-        return {"kind": "layer", "deflate": int(rng.chance(0.4)), "script": script, "policy": policy}
+        return {"kind": "layer", "deflate": deflate, "script": script, "policy": policy}
 
     TAILS = [b"\r", b"\n", b"\r\n", b"\n\r\n\n", b"\x00", b"\xff", b"a", b""]
 
@@ -755,7 +776,7 @@ class Check(PropertyCheck):
         if rng.chance(0.12) and len(frames) > 1:     # message sequencing violations (MessageDecoder)
             k = rng.randint(0, len(frames) - 1)
             if frames[k]["op"] in (0, 1, 2):      # (a binary payload is never relabelled as text: UTF-8 validity is a parameter)
-                frames[k]["op"] = rng.pick([0, 2] if frames[k]["op"] != 1 and not valid_utf8(unhx(frames[k]["p_hex"])) else [0, 1, 2]); valid = False
+                frames[k]["op"] = rng.pick([0, 2] if frames[k]["op"] != 1 else [0, 1, 2]); valid = False
         case = {"kind": "wire", "client": client, "frames": frames, "valid": int(valid), "events": 1}
         r = rng.random()
         total = len(wire_bytes(case))
@@ -874,12 +895,12 @@ class Check(PropertyCheck):
 
     def _layer_oracle(self, case, obs):
         fails = []
-        if obs["errors"]:
-            items, close, weird = spec_of(case)
-            if not weird: fails.append("layer raised " + obs["errors"][0])
-            return fails
         items, close, weird = spec_of(case)
-        if weird: return fails
+        if obs["errors"] and not weird:
+            fails.append("layer raised " + obs["errors"][0])
+            return fails
+        if obs["state"] == "no-websocket": return fails + ["the upgrade did not reach the WebSocket layer"]
+        # weird (a peer violated the protocol somewhere): everything sent BEFORE the violation is still owed
         toks = parse_tokens(obs["steps"])
         st = dict(kv.split("=", 1) for kv in obs["state"].split(" "))
         recorded = []
@@ -890,8 +911,8 @@ class Check(PropertyCheck):
         policy = case.get("policy", [])
         # expected recorded messages: every message a peer sent / an addon injected, once, in order, as edited by the addon
         src = [it for it in items if it[0] == "msg"]
-        if len(recorded) != len(src):
-            fails.append(f"{len(src)} messages sent/injected, {len(recorded)} recorded")
+        if (len(recorded) != len(src)) if not weird else (len(recorded) < len(src)):
+            fails.append(f"{len(src)} messages sent/injected" + (" before the protocol violation" if weird else "") + f", {len(recorded)} recorded")
             return fails
         deliv = {"c": [], "s": []}
         for sd in ("c", "s"):
@@ -950,14 +971,15 @@ class Check(PropertyCheck):
                 if pay != ref:
                     fails.append(f"message {i}: unmodified but frame boundaries changed {[len(p) for p in pay]} vs {[len(p) for p in ref]}")
         for sd in ("c", "s"):
-            if idx_by_dir[sd] != len(deliv[other[sd]]):
+            if not weird and idx_by_dir[sd] != len(deliv[other[sd]]):
                 fails.append(f"peer {other[sd]} received {len(deliv[other[sd]])} messages, {idx_by_dir[sd]} expected (duplicate or spurious delivery)")
         # pings and pongs are relayed
         for kind, tok in (("ping", "PI"), ("pong", "PO")):
             for sd in ("c", "s"):
                 want = [hx(p) for k2, s2, p in [it for it in items if it[0] in ("ping", "pong")] if k2 == kind and s2 == sd]
                 got = [it[1] for it in obs["peer"][other[sd]] if it[0] == tok.lower()]
-                if want != got: fails.append(f"{kind}s from {sd}: sent {want} relayed {got}")
+                if (want != got) if not weird else (got[:len(want)] != want):
+                    fails.append(f"{kind}s from {sd}: sent {want} relayed {got}")
         # the close code and reason recorded for the flow are those the closing peer sent
         if close is not None and close[3] == "frame":
             want = f"{close[0]}.{close[1]}.{hx(close[2].encode())}"
@@ -1062,7 +1084,25 @@ class Check(PropertyCheck):
         return sorted(set(out))
 
     def known(self, case, obs, failure):
-        return None
+        return None          # C28 has no recorded finding: every oracle failure is reported
+
+    def known_selftest(self):
+        """no classifier exists, so nothing may ever be excused: known() must be None for every clause of the oracle
+        (also on the witnesses of the two repaired defects), and known/C28.json must not list findings"""
+        import json as _j, os as _o
+        from common.paths import VERIF
+        kj = _j.load(open(_o.path.join(VERIF, "known", "C28.json")))
+        assert kj.get("findings") == [], "known/C28.json lists findings but harness/c28.py has no classifier"
+        big = ("a" + "é" * 3000).encode()
+        probes = [({"kind": "frag", "text": 1, "frags_hex": [], "content_hex": hx(big)}, "fragments concatenate to … content is …"),
+                  ({"kind": "frag", "text": 1, "frags_hex": ["6162", "6364"], "content_hex": "61c3a964"}, "unmodified message re-fragmented"),
+                  ({"kind": "layer", "deflate": 0, "policy": [], "script": []}, "message 0: delivered content differs from the recorded content"),
+                  ({"kind": "layer", "deflate": 0, "policy": [], "script": []}, "1 messages sent/injected, 0 recorded"),
+                  ({"kind": "e2e", "deflate": 0, "policy": [], "script": []}, "pings from c: sent ['01'] relayed []"),
+                  ({"kind": "layer", "deflate": 0, "policy": [], "script": []}, "close recorded as c.1000.-, peer sent c.1001.-"),
+                  ({"kind": "wire", "client": 0, "frames": []}, "wsproto decoded [] fail=True from the frames […]")]
+        for case, failure in probes:
+            assert self.known(case, {}, failure) is None, f"known() excuses {failure!r}"
 
     def neighbours(self, case, rng):
         if case["kind"] == "frag":
